@@ -240,6 +240,20 @@ PROPS = {
         level_text='Hundreds of update runs per quick tier with ~1000 accepted and ~800 dropped (overlapping) edits, every file compared byte for byte; held on the projects executed.',
         level_note='Trusted: the --json announcement of the same binary as statement of intent (its positions are judged by C16), the 10-line splice.',
     ),
+    'C13': dict(
+        engines=[('py', 'c13')],
+        cli=True,
+        technique='runtime monitoring at the process boundary: metamorphic oracle (permuted documents, fresh processes = fresh hash seeds, -j 1/-j 8) over canonicalised JSON records and snapshot hashes; hook H2 reports the key orders actually exercised',
+        rule=('a project with three rules (utilities in chains and diamonds incl. a dependency through `has`, two global utility files, several constraints, a transformation chain T1->T2->T3, a rewrite '
+              'transform with two rewriters, fix and message using transformed variables) over three source files; variants permute the keys of utils / constraints / transform and the top-level keys, '
+              'shuffle rewriters, rename rule files or merge them into one multi-document file in shuffled order; every variant is scanned in 6 (quick) / 12 (thorough) fresh processes alternating -j 1 and -j 8. '
+              'Oracle: the sorted multiset of records (each parsed and re-serialised with sorted keys: file, ruleId, range, message, replacement, replacementOffsets, metaVariables incl. transformed) is identical for '
+              'all launches of all variants; `ast-grep test` exits 0 right after `test -U`, snapshot files are byte-identical across variants and a second `test -U` does not rewrite them. '
+              'evaluations = process launches. distinct_nontrivial = distinct project variants; the evidence lists the distinct key orders seen per site (utils registration, transform order, constraint evaluation).'),
+        floor={'quick': 100, 'thorough': 2500},
+        level_text='Hundreds (quick) to thousands (thorough) of fresh-process launches over permuted but equivalent projects; the hash orders that actually occurred are counted from hook events; held on those.',
+        level_note='Trusted: YAML/JSON map semantics (permutation preserves meaning), python canonicalisation. Record ORDER in the output is not part of the statement.',
+    ),
 }
 
 NOT_APPLICABLE = {}
